@@ -86,9 +86,12 @@ def prop(case, r):
     r.check(R.bits(u0) == u0_bytes, 'caller-u0-modified', 'run modified the caller\'s u0 object')
     accepted = []
     restarts = 0
+    restarted_blocks = set()
     for b, blk in enumerate(blocks):
         flags = [s['restart'] for s in blk]
         first_restart = flags.index(True) if True in flags else len(blk)
+        if first_restart < len(blk):
+            restarted_blocks.add(b)
         # restart flags propagate to all later steps of the block
         r.check(all(flags[first_restart:]), 'restart-not-propagated', f'block {b}: flags {flags}')
         for s in blk[:first_restart]:
@@ -122,7 +125,11 @@ def prop(case, r):
     # chain
     for (ba, a), (bb, c) in zip(accepted[:-1], accepted[1:]):
         r.check(abs(c['time'] - (a['time'] + a['dt'])) <= tol_time(a, c, max(abs(t0), abs(Tend))), 'tiling', f'step at {a["time"]!r} dt {a["dt"]!r} followed by start {c["time"]!r}')
-        r.check(c['u0'] == a['uend'], 'chain-value', f'step starting at {c["time"]!r} (block {bb}) does not start from the end value of the step before it')
+        # inside one block, behind a predecessor that is not the first step of the block, known finding F16 applies (the predecessor's own
+        # start value may still change in its last check); behind the first step of a block and across blocks nothing can excuse a mismatch
+        # (a block that continues after a restart starts from the restarted step's start value, which that step had received from `a` inside the block)
+        inner = a.get('slot', 0) >= 1 and (ba == bb or ba in restarted_blocks)  # blocks in between were restarted from their first step
+        r.check(c['u0'] == a['uend'], 'chain-value-inner' if inner else 'chain-value', f'step starting at {c["time"]!r} (block {bb}) does not start from the end value of the step before it')
     for b, s in accepted:
         r.check(s['time'] < Tend, 'start-beyond-Tend', f'accepted step starts at {s["time"]!r} >= Tend={Tend!r}')
         r.check(s['dt'] > 0, 'nonpositive-dt', f'{s["dt"]}')
@@ -213,7 +220,7 @@ def paradiag_cases(draw):
 
 def known_match(fid, clause, case, failure):
     tag, msg = failure
-    if fid == 'F16' and tag == 'chain-value':
+    if fid == 'F16' and tag == 'chain-value-inner':
         quadrature_end = case.get('coll_update') or case.get('quad_type', 'RADAU-RIGHT') in ('GAUSS', 'RADAU-LEFT')
         return bool(quadrature_end and case['num_procs'] >= 2)
     if fid == 'F4' and tag == 'step-count' and not case.get('script'):
